@@ -22,6 +22,14 @@ def M(id_, file, old, new, props):
 
 
 MUTANTS = [
+    M('first-blobs-not-stored', S, "            if self.blobs is None:\n                self.blobs = [blobs]\n            else:",
+      "            if self.blobs is None:\n                pass\n            else:", 'C03'),
+    M('update-without-resize', S,
+      "        group['points_{}'.format(shell)].resize(self.points[shell].shape)\n", "", 'C05 C06'),
+    M('resume-does-not-restore-points', S, "                    self.points.append(\n"
+      "                        np.array(group['points_{}'.format(shell)]))\n", "", 'C05 C03'),
+    M('resume-does-not-restore-generator', S, "                self.rng.bit_generator.state = dict(",
+      "                state_ = dict(", 'C05'),
     M('mvee-of-a-subsample', B, "            bound.c, bound.A, A_inv = minimum_volume_enclosing_ellipsoid(\n                points)",
       "            bound.c, bound.A, A_inv = minimum_volume_enclosing_ellipsoid(\n                points[::2])", 'C07'),
     M('mixture-contains-demands-unit-cube', B,
